@@ -29,7 +29,11 @@ for fn in sorted(os.listdir(_here)):
         for k, v in extra.items():
             if k != "assumptions":
                 P[k] = v
+_only = os.environ.get("VERIF_ONLY_MODEL")
 for pid, P in PROPS.items():
     P["claimed"] = pid in CLAIMED
-    if P["claimed"]:
+    if _only:
+        # development aid: judge a property with one named model only
+        P["models"] = [m for m in P["models"] if m == _only]
+    elif P["claimed"]:
         P["models"] = [m for m in P["models"] if m in READY]
